@@ -14,7 +14,7 @@ def main():
     run.gen_vcs()
     print("errors:", run.checker_errors, run.out_of_reach, run.stale)
     for v in run.vcs:
-        if sub not in v.name:
+        if sub not in v.name or (v.expect == "sat" and not os.environ.get("PROBES")):
             continue
         neg = z3.Not(v.goal) if v.expect == "unsat" else z3.BoolVal(True)
         smt = solve.vc_to_smt2(v.hyps, neg, run.vc_axioms[v.name])
